@@ -1941,11 +1941,12 @@ class BSP:
         edge_buf = BytesIO()
         surf_buf = BytesIO()
 
-        # The first edge is never actually used, since -0 = 0. Set it to be 0 0 0, adding that if
-        # not present.
-        try:
-            first_vert = self.vertexes[self.vertexes.index(Vec())]
-        except (IndexError, ValueError):
+        # The first edge is never actually used, since -0 = 0.
+        # VBSP itself points it at vertex 0 twice, so reuse that - don't grow the vertex lump
+        # each time a map without a vertex at the origin is resaved.
+        if self.vertexes:
+            first_vert = self.vertexes[0]
+        else:
             first_vert = Vec()
             self.vertexes.append(first_vert)
         edges: list[Edge] = [Edge(first_vert, first_vert)]
